@@ -236,6 +236,28 @@ def run (toks : List String) : Option String := do
           | none => -3
         let keep := fun l => keeps.contains (nameOf l)
         pure ("T " ++ showList (Lat.merged semM customM keep ls b))
+    | "arrP" => do
+        let items ← topNames tbl
+        let b ← pbeam
+        let nk ← nat; let keeps ← ints nk
+        let ls := items.map (·.1)
+        let nameOf (l : Lat Stub) : Int :=
+          match items.find? (fun x => showLat x.1 == showLat l) with
+          | some x => x.2
+          | none => -3
+        let keep := fun l => keeps.contains (nameOf l)
+        pure ("T " ++ " | ".intercalate ((Lat.arrivals semP customP keep ls b).map showP))
+    | "arrM" => do
+        let items ← topNames tbl
+        let b ← mbeam
+        let nk ← nat; let keeps ← ints nk
+        let ls := items.map (·.1)
+        let nameOf (l : Lat Stub) : Int :=
+          match items.find? (fun x => showLat x.1 == showLat l) with
+          | some x => x.2
+          | none => -3
+        let keep := fun l => keeps.contains (nameOf l)
+        pure ("T " ++ " | ".intercalate ((Lat.arrivals semM customM keep ls b).map showM))
     | _ => failure
   (p.run toks).map (·.1)
 
